@@ -19,7 +19,7 @@
    show the same implication fails for the upstream sharing (fixd = false). *)
 From Coq Require Import List Bool Arith.
 Import ListNotations.
-Require Import Plinio.Model.Calc Plinio.Proofs.Calc.
+Require Import Plinio.Model.Calc Plinio.Proofs.Calc Plinio.Gen.CalcGen Plinio.Proofs.CalcGen.
 
 (* the implementation's calculators (evaluated through the buffers they register) give exactly the alive
    features of the tensor feeding each converted layer, and their number *)
@@ -161,6 +161,88 @@ Example C09_example :
   shape_ok true ex_net ex_ms = true.
 Proof. vm_compute. repeat split. Qed.
 
+(* ================================================================ the model GENERATED from the source of the calculators *)
+(* Gen/CalcGen.v is rewritten by translator/calc2coq.py on every run from plinio/graph/features_calculation.py of the tree
+   under test: `features`, `features_mask`, `register` and the buffers created in `__init__` of Const / ModAttr / Flatten /
+   Concat FeaturesCalculator, statement by statement (buffers with their real names, the fields `mod` / `prefix` of every
+   calculator object, `if self.mod is None`, the prefixes handed to the recursive calls).  `geval st ms c` evaluates a
+   calculator term with the generated per-class functions: (.features, .features_mask); `gregister_all nt` runs the
+   generated `register` of every consumer's calculator in graph order; `gok` = every buffer read found a registered
+   buffer of the right kind (no AttributeError, no default value). *)
+
+(* it computes the hand-written model: same .features and .features_mask for every consumer of every network ... *)
+Theorem C09_generated_eval_is_model : forall nt ms, wf nt = true -> forall i, i < length nt -> consumer nt i = true ->
+  geval (gregister_all nt) ms (input_calc true nt i)
+  = (sfeat (register_all true nt) ms (input_calc true nt i), smask (register_all true nt) ms (input_calc true nt i)).
+Proof. exact gen_eval_is_model. Qed.
+
+(* ... because the generated registration simulates the model's (real buffers <-> one number per key), for EVERY term,
+   consumer, prefix and pair of related states, hence for the whole network ... *)
+Theorem C09_generated_register_simulates : forall c cons P G S, sim G S -> sim (greg c cons P G) (reg true cons P c S).
+Proof. exact greg_sim. Qed.
+Theorem C09_generated_register_all_simulates : forall nt, sim (gregister_all nt) (register_all true nt).
+Proof. exact gregister_all_sim. Qed.
+
+(* ... and no read of a buffer is undefined or served by another calculator's buffer *)
+Theorem C09_generated_defined : forall nt ms, wf nt = true -> forall i, i < length nt -> consumer nt i = true ->
+  gok (gregister_all nt) ms (input_calc true nt i) = true.
+Proof. exact gen_defined. Qed.
+
+(* the main sentence of C09 for the code as it is now: every converted layer's calculator reports the number of alive
+   features of the tensor feeding it, and their positions *)
+Theorem C09_generated_calc_sound : forall nt ms, wf nt = true -> sound_b nt ms = true ->
+  forall i, i < length nt -> consumer nt i = true ->
+    geval (gregister_all nt) ms (input_calc true nt i)
+    = (count (nth (src1 (node_at nt i)) (alive nt ms) []), nth (src1 (node_at nt i)) (alive nt ms) []).
+Proof. exact gen_calc_sound. Qed.
+
+Theorem C09_generated_calc_sound_full : forall nt ms, wf nt = true -> consistent_b true nt ms = true ->
+  forall i, i < length nt -> consumer nt i = true ->
+    geval (gregister_all nt) ms (input_calc true nt i)
+    = (count (nth (src1 (node_at nt i)) (alive nt ms) []), nth (src1 (node_at nt i)) (alive nt ms) []).
+Proof. exact gen_calc_sound_full. Qed.
+
+(* charged for (.features) = exported with (ones of .features_mask) *)
+Theorem C09_generated_features_is_mask_count : forall nt ms, wf nt = true -> sound_b nt ms = true ->
+  forall i, i < length nt -> consumer nt i = true ->
+    cv_features (geval (gregister_all nt) ms (input_calc true nt i))
+    = count (cv_mask (geval (gregister_all nt) ms (input_calc true nt i))).
+Proof. exact gen_features_is_mask_count. Qed.
+
+Theorem C09_generated_in_features_export : forall nt ms, wf nt = true -> forall i, i < length nt -> consumer nt i = true ->
+  export_in true nt ms i = count (cv_mask (geval (gregister_all nt) ms (input_calc true nt i))).
+Proof. exact gen_in_features_export. Qed.
+
+(* one class at a time: constant, product with the spatial size across flatten, sum across concatenation *)
+Theorem C09_generated_const : forall id n cons P,
+  let G := const_register_gen id n cons P gempty in
+  const_features_gen G id = n /\ const_features_mask_gen G id = repeat true n /\
+  const_features_ok G id && const_features_mask_ok G id = true.
+Proof. exact gen_const_unit. Qed.
+
+Theorem C09_generated_flatten_product : forall id m cons P v,
+  let G := flatten_register_gen id m (fun _ _ st => st) cons P gempty in
+  flatten_features_gen G id v = m * cv_features v /\ flatten_features_mask_gen G id v = expand m (cv_mask v) /\
+  flatten_features_ok G id v && flatten_features_mask_ok G id v = true.
+Proof. exact gen_flatten_unit. Qed.
+
+Theorem C09_generated_concat_sum : forall vs,
+  concat_features_gen vs = list_sum (map cv_features vs) /\ concat_features_mask_gen vs = flat_map cv_mask vs /\
+  count (concat_features_mask_gen vs) = list_sum (map (fun v => count (cv_mask v)) vs).
+Proof. exact gen_concat_unit. Qed.
+
+Theorem C09_generated_modattr : forall a m, modattr_features_gen a m = a /\ modattr_features_mask_gen a m = m.
+Proof. exact modattr_eq. Qed.
+
+(* non-vacuity: the generated calculators on the example network (flatten x4 of a pruned layer, cat of three tensors) *)
+Example C09_generated_example :
+  map (fun i => geval (gregister_all ex_net) ex_ms (input_calc true ex_net i)) [8; 11]
+  = [(7, [true; false; false; true; true; true; true; true; true]);
+     (8, [false; false; false; false; true; true; true; true; true; true; true; true])] /\
+  map (fun i => gok (gregister_all ex_net) ex_ms (input_calc true ex_net i)) [1; 3; 5; 8; 9; 11] = [true; true; true; true; true; true] /\
+  length (run_names_gen ex_net) = 6.
+Proof. vm_compute. repeat split. Qed.
+
 Print Assumptions C09_calc_sound.
 Print Assumptions C09_names_ok.
 Print Assumptions C09_calc_ideal_sound.
@@ -182,3 +264,15 @@ Print Assumptions C09_dup_cat_refuted.
 Print Assumptions C09_add_of_cat_refuted.
 Print Assumptions C09_dw_after_cat_refuted.
 Print Assumptions C09_excluded_downstream_refuted.
+Print Assumptions C09_generated_eval_is_model.
+Print Assumptions C09_generated_register_simulates.
+Print Assumptions C09_generated_register_all_simulates.
+Print Assumptions C09_generated_defined.
+Print Assumptions C09_generated_calc_sound.
+Print Assumptions C09_generated_calc_sound_full.
+Print Assumptions C09_generated_features_is_mask_count.
+Print Assumptions C09_generated_in_features_export.
+Print Assumptions C09_generated_const.
+Print Assumptions C09_generated_flatten_product.
+Print Assumptions C09_generated_concat_sum.
+Print Assumptions C09_generated_modattr.
